@@ -620,6 +620,11 @@ class ExecExpr(ExecCore):
 
     def percent_format(self, st, fmt, arg):
         """'..%s..' % x : exact for %s with str arguments, otherwise an unconstrained string (over-approximation)"""
+        if fmt.has_py and arg.has_py and isinstance(arg.py, (str, int, tuple)):
+            try:
+                return const_sv(fmt.py % arg.py)
+            except Exception:
+                pass
         if fmt.has_py:
             pieces = fmt.py.split('%s')
             aty = Ty.strip_opt(arg.ty)
@@ -747,6 +752,12 @@ class ExecExpr(ExecCore):
         return out, raises
 
     def py_equal(self, st, a, b, node):
+        ta, tb = Ty.strip_opt(a.ty), Ty.strip_opt(b.ty)
+        if isinstance(ta, Ty.TList) and isinstance(tb, Ty.TList) and (is_prim(ta.t) or is_prim(tb.t)):
+            # lists of primitive values compare element-wise
+            both = And(is_ref(a.term), is_ref(b.term))
+            return And(both, st.L[va(a.term)] == st.L[va(b.term)]) if not (isinstance(a.ty, Ty.TOpt) or isinstance(b.ty, Ty.TOpt)) \
+                else z3.If(both, st.L[va(a.term)] == st.L[va(b.term)], a.term == b.term)
         for x in (a, b):
             t = Ty.strip_opt(x.ty)
             if isinstance(t, (Ty.TList, Ty.TDict, Ty.TTuple, Ty.TSet)):
